@@ -213,10 +213,13 @@ def run_case(case):
 
 
 def _value(family):
+    # small magnitudes are ordinary values too (importances around 1e-10): a sum of 1e-9 is small, not zero
     if family == 'exact':
-        return gen.rational(num=st.integers(-12, 12), den=st.integers(1, 4))
+        return gen.rational(num=st.integers(-12, 12), den=st.integers(1, 4)) | \
+            st.sampled_from(['1/1000000000', '-3/10000000000', '1/1000000000000', '7/10000000000'])
     return st.tuples(st.sampled_from(sorted(FTYPES)), st.integers(-8, 8)).map(list) | \
-        st.tuples(st.sampled_from(['float', 'f64', 'f32']), st.sampled_from([0.5, -0.5, 0.25, 1.5, -2.75, 0.1, 1e-3, 100.0])).map(list)
+        st.tuples(st.sampled_from(['float', 'f64', 'f32']), st.sampled_from([0.5, -0.5, 0.25, 1.5, -2.75, 0.1, 1e-3, 100.0])).map(list) | \
+        st.tuples(st.sampled_from(['float', 'f64']), st.sampled_from([1e-9, -3e-10, 2.5e-12, 7e-10])).map(list)
 
 
 def make_machine():
